@@ -31,24 +31,29 @@ def run(rep, tier, seed, model_ok):
                        "Non-trivial = input that is not valid Rust")
     mal = gen.malformed_files(rng, 1000 if quick else 20000) + gen.multibyte_window_files()
     ok_utf8 = [b for b in mal if _utf8(b)]
+    MODEL_MAX = 6000      # the extracted model walks range tables per character: keep it to small inputs
     dist = {"malformed": len(mal), "invalid_utf8": len(mal) - len(ok_utf8)}
     # (a) finder level
     for structured in (False, True):
         lines = ["entries\t%d\t%s\t%s" % (1 if structured else 0, gen.MACROS_ARG, b.hex()) for b in ok_utf8]
         impl = h1.impl_only(lines)
-        model = h1.model_only(lines) if model_ok else None
+        small = [i for i, b in enumerate(ok_utf8) if len(b) <= MODEL_MAX]
+        model = None
+        if model_ok:
+            ans = h1.model_only([lines[i] for i in small])
+            model = {i: a for i, a in zip(small, ans)}
         bad = 0
         for i, (b, a) in enumerate(zip(ok_utf8, impl)):
             rep.count((structured, b), nontrivial=True)
             if "PANIC" in a or "CRASH" in a:
                 rep.violation("the finder panics on %r (structured=%s)" % (b[:120], structured),
                               {"kind": "entries", "structured": structured, "file_b64": gen.b64(b)})
-            elif model is not None and model[i] != a:
+            elif model is not None and i in model and model[i] != a:
                 bad += 1
                 if bad <= 3:
                     rep.not_shown("correspondence finder model <-> implementation on malformed text",
                                   json.dumps({"file": b.decode("utf-8", "replace")[:300], "impl": a[:300], "model": model[i][:300]}))
-        rep.extra["correspondence_runs"] = rep.extra.get("correspondence_runs", 0) + (len(ok_utf8) if model else 0)
+        rep.extra["correspondence_runs"] = rep.extra.get("correspondence_runs", 0) + (len(small) if model else 0)
         rep.extra["correspondence_disagreements"] = rep.extra.get("correspondence_disagreements", 0) + bad
     # (b) the binary, both modes
     scs = []
@@ -91,17 +96,24 @@ def run(rep, tier, seed, model_ok):
         for n in sizes:
             b = timing_families(n)[name]
             s = h2.Scenario([("t.rs", b)], "check", name="timing")
-            t1 = time.time()
-            o = h2.run_impl(s, timeout=120)
-            ts.append(time.time() - t1)
+            best = None
+            for _ in range(2):
+                # CPU time of the child processes (user + system), so that load on the machine does not count
+                import resource
+                r0 = resource.getrusage(resource.RUSAGE_CHILDREN)
+                o = h2.run_impl(s, timeout=120)
+                r1 = resource.getrusage(resource.RUSAGE_CHILDREN)
+                cpu = (r1.ru_utime - r0.ru_utime) + (r1.ru_stime - r0.ru_stime)
+                best = cpu if best is None else min(best, cpu)
+            ts.append(best)
             if h2.exit_class(o) not in ("OK", "ERR"):
                 rep.violation("timing family %s at %d bytes: %s" % (name, len(b), h2.exit_class(o)),
                               {"kind": "timing", "family": name, "size": n})
         ratio = ts[1] / max(ts[0], 0.02)
         scaling[name] = {"seconds": [round(x, 3) for x in ts], "ratio": round(ratio, 2)}
         rep.count(("timing", name), nontrivial=True)
-        # 4x (8x) the size: linear would be ~4 (8); quadratic 16 (64).  Budget: 1.6x linear, and > 1 s absolute
-        if ratio > 1.6 * (sizes[1] / sizes[0]) and ts[1] > 1.0:
+        # 4x (8x) the size: linear would be ~4 (8); quadratic 16 (64).  Budget: 1.6x linear, and > 1.5 s CPU absolute
+        if ratio > 1.6 * (sizes[1] / sizes[0]) and ts[1] > 1.5:
             rep.violation("run time of family '%s' grows faster than linearly: %r s for %r bytes" % (name, ts, sizes),
                           {"kind": "timing", "family": name, "sizes": sizes, "seconds": ts})
     rep.extra["scaling"] = scaling
